@@ -5,7 +5,7 @@ from vtlib.env import REPO
 from pyvc.unit import Registry
 from pyvc.modules import Loader
 
-CONTRACT_MODULES = ["contracts.scratchdb_c", "contracts.reject_c", "contracts.nibbles_c", "contracts.binaries_c", "contracts.binnodes_c", "contracts.seqlemmas", "contracts.prefix_c", "contracts.binary_c", "contracts.branches_c", "contracts.hexary_c", "contracts.traverse_c", "contracts.fog_c", "contracts.smt_c"]
+CONTRACT_MODULES = ["contracts.scratchdb_c", "contracts.reject_c", "contracts.nibbles_c", "contracts.binaries_c", "contracts.binnodes_c", "contracts.seqlemmas", "contracts.prefix_c", "contracts.binary_c", "contracts.branches_c", "contracts.hexary_c", "contracts.traverse_c", "contracts.fog_c", "contracts.iter_c", "contracts.smt_c"]
 
 
 def make_loader():
